@@ -228,6 +228,32 @@ def r2(ctx: Ctx, rep: Report):
             rep.check(bool(resets), "C05.R2", "end:%s._max_retries_reached" % ci.name, mx.loc(),
                       "_max_retries_reached resets the retry counter",
                       bad="%s: _max_retries_reached ends the request with the retry counter still at its maximum: the next request is transmitted only once" % ci.name)
+        # exits of send_request that end the request without any callback having completed it
+        # (connect errors, exhausted budget handled locally): the counter must be reset on the path
+        sr = method(ctx, ci, "send_request")
+        mx_resets = all(any(ev.kind == "stmt" and "store:_retry=0" in tags(ev) for ev in p.events) for p in enumerate_paths(prog, mx, no_raise))
+        exits = {}
+        for p in protocol_paths(ctx, sr):
+            if any(ev.kind == "call" and "recursive" in tags(ev) for ev in p.events):
+                continue      # the inner activation ends the request
+            if p.end != "raise":
+                continue      # returns: the future was completed by a callback (checked above) or by _max_retries_reached
+            origin = p.end_node
+            first_raise = next((ev for ev in p.events if ev.kind == "raise"), None)
+            src = first_raise.node if first_raise is not None else origin
+            if isinstance(src, ast.Await) and not isinstance(src.value, ast.Call) and "future" in norm(src.value):
+                continue      # the exception was put on the future by a callback, which resets the counter (checked above)
+            reset = any((ev.kind == "stmt" and "store:_retry=0" in tags(ev)) or (ev.kind == "call" and "max_retries" in tags(ev) and mx_resets) for ev in p.events)
+            k = "%s@%s" % (norm(src)[:50], prog.exc_name(p.end_data))
+            e = exits.setdefault(k, {"ok": True, "path": None, "src": src, "n": 0})
+            e["n"] += 1
+            if not reset:
+                e["ok"], e["path"] = False, p
+        for k, e in exits.items():
+            rep.check(e["ok"], "C05.R2", "exit:%s:%s" % (sr.short, k), sr.loc(e["src"]),
+                      "%s: failing exit (%s) resets the retry counter (%d paths)" % (sr.short, k, e["n"]),
+                      bad="%s lets the request fail with %s without resetting self._retry: if this was a retry, the next request on this object starts with a reduced budget [path %s]" % (
+                          sr.short, k, e["path"].describe(8) if e["path"] else ""))
         # the counter starts at zero
         init = ci.methods.get("__init__")
         ok = init is not None and any(isinstance(n, (ast.Assign, ast.AnnAssign)) and any(a == "_retry" for a, _, _ in self_store(n))
